@@ -116,6 +116,9 @@ fn main() {
             for v in &phase.violations {
                 println!("violation: group={} signature={}\n  {}\n  case: {}", v.group, v.signature, v.message, v.case);
             }
+            for m in &phase.notes {
+                println!("note: {m}");
+            }
             for m in &phase.infra {
                 println!("inconclusive: {m}");
             }
@@ -439,9 +442,11 @@ fn run_parent(id: &str, tier: Tier, seed: i64) -> i32 {
     // Coverage-guided campaigns over the same generators and oracles.
     let mut fuzz_stats: Vec<Value> = Vec::new();
     let mut fuzz_executions = 0u64;
+    let mut fuzz_notes: Vec<String> = Vec::new();
     if tier == Tier::Thorough && violations.is_empty() {
         let phase = fuzzrun::run(id, seed, &exe);
         violations.extend(phase.violations);
+        fuzz_notes = phase.notes;
         infra.extend(phase.infra);
         fuzz_stats = phase.stats;
         fuzz_executions = phase.executions;
@@ -541,7 +546,7 @@ fn run_parent(id: &str, tier: Tier, seed: i64) -> i32 {
             println!("KNOWN-FINDING: property={id} {} [signature {sig}, observed {n}x]", k.what);
         }
     }
-    for n in &notes {
+    for n in notes.iter().chain(&fuzz_notes) {
         println!("note: {n}");
     }
     for m in &infra {
@@ -593,6 +598,7 @@ fn run_parent(id: &str, tier: Tier, seed: i64) -> i32 {
             "shards": nshards,
             "fuzz_executions": fuzz_executions,
             "fuzz_campaigns": fuzz_stats,
+            "fuzz_unconfirmed_reports": fuzz_notes,
         },
         "assumptions": prop.assumptions,
         "wall_s": start.elapsed().as_secs_f64(),
